@@ -294,6 +294,12 @@ func (hr *hubRun) derefListed(op hubOp, w *fakeRW, now time.Time, cs hubCase) {
 		if d.Topic == "" {
 			continue
 		}
+		if op.Topic != "" && d.Topic != op.Topic {
+			hr.extra = append(hr.extra, h.Violation{Key: "C18:per-selector-collection-not-restricted-to-that-selector",
+				What: fmt.Sprintf("the collection for selector %q lists a subscription whose selector is %q (subscriber %q)", op.Topic, d.Topic, d.Subscriber), Replay: rp})
+
+			break
+		}
 		if want := subscriptionURL(d.Topic, d.Subscriber); d.ID != want {
 			hr.extra = append(hr.extra, h.Violation{Key: "C18:listed-id-does-not-identify-its-subscription",
 				What: fmt.Sprintf("the collection lists selector %q of subscriber %q under id %q; its subscription URL is %q", d.Topic, d.Subscriber, d.ID, want), Replay: rp})
